@@ -55,7 +55,12 @@ def expression_pool(model, tier):
         pool += [("Exponential", x, near_e), ("Exponential", x, 1 + 1e-12), ("Exponential", x, 0.3),
                  ("Exponential", x, 0.1 + 0.2)]
     pool += [("Constant", 0.3), ("Constant", 0.1 + 0.2), ("Constant", 2.0000000000000004), ("Constant", -1),
-             ("Constant", -2), ("Constant", 1e-300)]
+             ("Constant", -2), ("Constant", 1e-300),
+             # floats printed in exponent notation (exponents ending in 0 and not), whole and not
+             ("Constant", 1e20), ("Constant", 1e200), ("Constant", -3e30), ("Constant", 1.5e100), ("Constant", 1e16),
+             ("Constant", 1e22), ("Constant", 2.5e-10), ("Constant", 100.0), ("Constant", 6.0), ("Constant", 10 ** 20)]
+    if "Exponential" in names:
+        pool += [("Exponential", x, 1e20), ("Exponential", x, 1e10)]
     if "Add" in names:
         pool += [("Add", [x, ("Constant", -1)]), ("Add", [x, ("Constant", -2)])]
     if tier != "quick":
